@@ -221,6 +221,47 @@ def run(ctx):
                         common.report(ctx, 'forms/invalid/%s/%s' % (api, type(bad).__name__),
                                       '%s(%r) on a %s-mode object: outcome %r, %d reads consumed (expected TypeError before any output is consumed)' % (
                                           api, arg, mode, res, nd), dict(api=api, arg=repr(arg), mode=mode, outcome=list(map(repr, res)), reads=nd))
+    # (4) the caller's own list: the same list object given to several calls (with `ignorecase` toggled in between, to
+    # expect and then to expect_exact, after a rejected call) behaves every time like a freshly written list, and is left as written
+    import copy as _copy
+    n4 = 0
+    for mode in 'bu':
+        for second in ('expect-ic', 'expect_exact', 'rejected'):
+            sp = X.Scripted([['d', 'xx password: yy PASSWORD: zz']], mode, X.FakeTime())
+            lst = [X.conv('PASSWORD: ', mode), X.conv('nomatch', mode)] + ([5] if second == 'rejected' else [])
+            written = list(lst)
+            saved_t = X.pexpect_expect.time
+            X.pexpect_expect.time = sp.clock
+            try:
+                try:
+                    first = sp.expect(lst, timeout=1)
+                except TypeError:
+                    first = 'TypeError'
+                if second == 'expect-ic':
+                    sp.ignorecase = True
+                    sp.buffer = X.conv('xx password: yy', mode)
+                    got = sp.expect(lst, timeout=1)
+                    want = 0
+                elif second == 'expect_exact':
+                    sp.buffer = X.conv('again PASSWORD: tail', mode)
+                    try:
+                        got = sp.expect_exact(lst, timeout=1)
+                    except TypeError:
+                        got = 'TypeError'
+                    want = 0
+                else:
+                    got, want = first, 'TypeError'
+            except Exception as e:      # noqa
+                got, want = 'EXC:' + type(e).__name__, 'no exception'
+            finally:
+                X.pexpect_expect.time = saved_t
+            n4 += 1
+            same = len(lst) == len(written) and all(a is b for a, b in zip(lst, written))
+            if got != want or not same:
+                common.report(ctx, 'forms/callers-list/%s/%s' % (mode, second),
+                              'one list object given to expect() and then %s (%s mode): second call gave %r (a fresh list gives %r); the caller\'s list is %s' % (
+                                  second, mode, got, want, 'unchanged' if same else 'rewritten to %r' % (lst,)), dict(mode=mode, second=second))
+    ctx.cov['callers_list_cases'] = n4
     ctx.cov['decision_cases'] = n1
     ctx.cov['metamorphic_cases'] = n2
     ctx.cov['invalid_object_cases'] = n3
